@@ -54,8 +54,10 @@ def still_decompress(base, p, cfg, vals):
 
 
 def work(arg):
-    name, base, content, scheds, lo, hi, limit, chunk, vals = arg
-    job = "scheds %s\nbase %s\nexpect %s\nsubst %d %d vals=%s limit=%d\n" % (scheds, base.hex(), content.hex(), lo, hi, vals, limit)
+    name, base, content, scheds, lo, hi, limit, chunk, vals = arg[:9]
+    recover = arg[9] if len(arg) > 9 else 0
+    after = arg[10] if len(arg) > 10 else len(content)     # offset of the first byte behind the damaged chunk
+    job = "recover %d\n" % recover + "scheds %s\nbase %s\nexpect %s\nsubst %d %d vals=%s limit=%d\n" % (scheds, base.hex(), content.hex(), lo, hi, vals, limit)
     cs = core.drv("readenum", job, timeout=3000)
     res = {"n": 0, "classes": {}, "viol": []}
     for c in cs:
@@ -63,12 +65,15 @@ def work(arg):
         if not c.done or k is None:
             res["viol"].append(({"check": "C15", "predicate": "crash-or-hang", "chunk": chunk_name(chunk)},
                                 "reader crashed or hung on a corrupted chunk: %s" % (c.status(),),
-                                {"base": base.hex(), "content": content.hex(), "pos": lo + c.idx, "limit": limit, "vals": vals, "scheds": scheds}))
+                                {"base": base.hex(), "content": content.hex(), "pos": lo + c.idx, "limit": limit, "vals": vals, "scheds": scheds,
+                                 "recover": recover, "after": after}))
             continue
         res["n"] += int(k["n"])
         for cl in "oecsSEC":
             res["classes"][cl] = res["classes"].get(cl, 0) + int(k[cl])
         for d in c.all("D"):
+            if recover and d["cls"] in "EC" and salvage_ok(core.unhex(d["content"]), content, limit, after):
+                continue
             if d["cls"] in "ECsS":
                 pred = {"E": "bytes-of-unverified-chunk-released-before-error", "C": "bytes-of-unverified-chunk-released-error-only-at-close",
                         "s": "corrupted-chunk-read-with-success", "S": "corrupted-chunk-read-with-success"}[d["cls"]]
@@ -76,8 +81,22 @@ def work(arg):
                                     "%s: byte %s := %s (chunk %d damaged, its data start at offset %d): read sizes #%s returned %s "
                                     "bytes in total; return values %s" % (name, k["pos"], d["val"], chunk, limit, d["sched"], d["len"], d["rets"]),
                                     {"base": base.hex(), "content": content.hex(), "pos": int(k["pos"]), "val": int(d["val"]), "limit": limit,
-                                     "vals": vals, "scheds": scheds, "sched": int(d["sched"])}))
+                                     "vals": vals, "scheds": scheds, "sched": int(d["sched"]), "recover": recover, "after": after}))
     return res
+
+
+def salvage_ok(got, content, limit, after):
+    """recover mode (the caller clears the error and reads on): an implementation may go on with the chunks behind the
+    damaged one.  Accepted: a prefix of the content that ends at or before the damaged chunk, followed by bytes that are a
+    contiguous piece of the content behind the damaged chunk.  Anything else contains data of the damaged chunk."""
+    a = 0
+    while a < len(got) and a < limit and got[a] == content[a]:
+        a += 1
+    for cut in range(a, -1, -1):
+        rest = got[cut:]
+        if not rest or rest in content[after:]:
+            return True
+    return False
 
 
 def histories(nchunks, thorough):
@@ -93,8 +112,9 @@ def histories(nchunks, thorough):
 def work_hist(arg):
     name, base, content, p_regions, muts, hists, sizes = arg   # muts: [(pos, val, chunk, limit)]
     res = {"n": 0, "viol": [], "outcomes": set()}
-    for size in sizes:
-        job = ["sched %d" % size, "peer %s" % base.hex()]
+    pb = zckref.parse(base)
+    for size, recover in [(s_, r_) for s_ in sizes for r_ in (0, 1)]:
+        job = ["sched %d" % size, "recover %d" % recover, "peer %s" % base.hex()]
         meta = []
         for pos, val, chunk, limit in muts:
             m = bytearray(base); m[pos] = val
@@ -106,7 +126,8 @@ def work_hist(arg):
         for c, (pos, val, chunk, limit, h) in zip(cs, meta):
             res["n"] += 1
             s = c.first("S")
-            case = {"hist": h, "base": base.hex(), "content": content.hex(), "pos": pos, "val": val, "limit": limit, "size": size, "chunk": chunk, "name": name}
+            case = {"hist": h, "base": base.hex(), "content": content.hex(), "pos": pos, "val": val, "limit": limit, "size": size, "chunk": chunk,
+                    "name": name, "recover": recover}
             if not c.done or s is None:
                 res["viol"].append(({"check": "C15", "predicate": "crash-or-hang", "history": h.split(",")[0][0]}, "%s byte %d := %d history %s: %s" % (name, pos, val, h, c.status()), case))
                 continue
@@ -119,7 +140,9 @@ def work_hist(arg):
             if ok_read:
                 bad = "corrupted-chunk-read-with-success"
             elif len(got) > limit or got != content[:len(got)]:
-                bad = "bytes-of-unverified-chunk-released-before-error"
+                after = limit + pb.chunks[chunk].ulen if chunk > 0 else 0
+                if not (recover and salvage_ok(got, content, limit, after)):
+                    bad = "bytes-of-unverified-chunk-released-before-error"
             if bad:
                 res["viol"].append(({"check": "C15", "predicate": bad, "chunk": chunk_name(chunk), "history": "+".join(x[0] for x in h.split(","))},
                                     "%s: byte %d := %d (chunk %d damaged, its data start at offset %d), history %s then reads of %d bytes: %d bytes returned, last=%s close=%s" % (
@@ -146,8 +169,10 @@ def run(ctx):
             jobs_sched = [(";".join(str(s) for s in sizes), "bits")]
         for scheds, vals in jobs_sched:
             for lo, hi, limit, chunk in regions(p):
+                after = limit + p.chunks[chunk].ulen if chunk > 0 else 0
                 for a in range(lo, hi, 4):
-                    jobs.append((name, base, content, scheds, a, min(hi, a + 4), limit, chunk, vals))
+                    for recover in (0, 1):
+                        jobs.append((name, base, content, scheds, a, min(hi, a + 4), limit, chunk, vals, recover, after))
         total_decomp += still_decompress(base, p, cfg, lambda o: [o ^ (1 << b) for b in range(8)])
     ctx.bounds = {"bases": [b[0] for b in bs], "mutants": "every single-bit flip of every body byte" + (" + all 255 substitutes" if thorough else ""),
                   "read_sizes": "every size 1..largest chunk+2, and 32768"}
@@ -197,7 +222,8 @@ def replay(case, quiet=True):
     if "hist" in case:
         r = work_hist((case["name"], base, content, None, [(case["pos"], case["val"], case["chunk"], case["limit"])], [case["hist"]], (case["size"],)))
         return {"violated": bool(r["viol"]), "detail": [v[1] for v in r["viol"]][:2]}
-    r = work(("replay", base, content, case["scheds"], case["pos"], case["pos"] + 1, case["limit"], 1, case["vals"]))
+    r = work(("replay", base, content, case["scheds"], case["pos"], case["pos"] + 1, case["limit"], 1, case["vals"],
+              case.get("recover", 0), case.get("after", len(content))))
     if "val" in case:
         hit = [v for v in r["viol"] if v[2].get("val") == case["val"] and v[2].get("sched") == case["sched"]]
         return {"violated": bool(hit), "detail": [h[1] for h in hit][:2]}
